@@ -225,6 +225,40 @@ def order_history_effects_bounded(ctx):
                     pth.unlink()
                 del o
                 gc.collect()
+            # (e) two long-lived objects in one process (editor / daemon with two workspaces): A is built, then B for another
+            # project whose repository patterns would also match files of A, then A lints for the first time
+            if not multi_language:
+                rootb = os.path.join(base, f"other{i}")
+                os.mkdir(rootb)
+                pathlib.Path(rootb, ".thailintignore").write_text("*_pb2.py\n" + "\n".join(files) + "\n", encoding="utf-8")
+                pathlib.Path(rootb, "b.py").write_text(_file_text(rng, 99), encoding="utf-8")
+                pb2 = pathlib.Path(root, "gen_pb2.py")
+                pb2.write_text("def planted_pb2():\n    return 3.14159 * 4242\n", encoding="utf-8")
+                cfg = json.loads(json.dumps(_CONFIG))
+                targets = [pathlib.Path(root) / f for f in files] + [pb2]
+                clear_ignore_parser_cache()
+                oa = Orchestrator(project_root=pathlib.Path(root), config=copy.deepcopy(cfg))
+                ob = Orchestrator(project_root=pathlib.Path(rootb), config=copy.deepcopy(cfg))
+                got_a = _key(oa.lint_files(targets), root)
+                ob.lint_files([pathlib.Path(rootb) / "b.py"])
+                pr = subprocess.run([sys.executable, "-c", _SUBPROCESS, repo, root, json.dumps(cfg),
+                                     json.dumps([os.path.relpath(str(t), root) for t in targets])],
+                                    capture_output=True, text=True, timeout=120, env=dict(os.environ, TMPDIR=private_tmp))
+                if pr.returncode != 0:
+                    raise RuntimeError("sub-process failed: " + pr.stderr[-300:])
+                fresh = sorted((k, v) for k, v in json.loads(pr.stdout.strip().splitlines()[-1]))
+                mine = sorted((json.dumps([k[0], k[1], k[2], k[3], list(k[4]), k[5]]), v) for k, v in got_a.items())
+                cases += 2
+                if mine != fresh:
+                    return bad("a Linter/Orchestrator built before ANOTHER project's one answers with the other project's state",
+                               {"sequence": ["A = Orchestrator(root A)", "B = Orchestrator(root B, .thailintignore: *_pb2.py + A's file names)",
+                                             "A.lint_files(...)"],
+                                "A_only": [k for k, _ in mine if (k, _) not in fresh][:6],
+                                "fresh_process_only": [k for k, _ in fresh if (k, _) not in mine][:6]})
+                pb2.unlink()
+                del oa, ob
+                gc.collect()
+                shutil.rmtree(rootb, ignore_errors=True)
             # (b) hash seeds
             outs = []
             for hs in ("1", "2"):
@@ -300,3 +334,62 @@ def constant_message_order_bounded(ctx):
         shutil.rmtree(base, ignore_errors=True)
     return [dict(name=name, kind="bounded", verdict="passed", carries=True, tool="native runs", cases=6, budget="3 files, all orders",
                  note="duplicate-constant messages are identical for every order of the file list")]
+
+
+@custom("c08-ignore-parser-root-bounded", props=["C08", "C09", "C14"])
+def ignore_parser_root_bounded(ctx):
+    """BOUNDED (get_ignore_parser uses `global`, outside the verified subset): over ALL call sequences of length <= 3 drawn
+    from {get(A), get(B), get(None) with cwd A, get(None) with cwd B} the returned parser belongs to the requested project:
+    its root is the given root, or the working directory when none is given -- never another project's -- and its
+    patterns are that root's patterns. (The recorded finding C08-ignore-parser-singleton-stale is about a root whose ignore
+    file CHANGES; here the files are fixed, so this clause is exact on the unchanged tree.)"""
+    import itertools
+    import os
+    import pathlib
+    import shutil
+    import tempfile
+    name = "custom:c08-ignore-parser-root-bounded/parser-belongs-to-the-requested-root"
+    from pyvc import native as _native
+    _native._ensure_repo_on_path()
+    base = tempfile.mkdtemp(prefix="c08root_")
+    cwd0 = os.getcwd()
+    cases = 0
+    try:
+        from src.linter_config.ignore import clear_ignore_parser_cache, get_ignore_parser
+        roots = {}
+        for nm, pat in (("A", "vendor/\n*_pb2.py\n"), ("B", "generated/\n")):
+            r = os.path.realpath(os.path.join(base, nm))
+            os.mkdir(r)
+            pathlib.Path(r, ".thailintignore").write_text(pat, encoding="utf-8")
+            roots[nm] = r
+        want = {"A": ["vendor/", "*_pb2.py"], "B": ["generated/"]}
+        actions = [("A", "A"), ("B", "B"), (None, "A"), (None, "B")]  # (root argument, working directory)
+        for k in (1, 2, 3):
+            for seq in itertools.product(actions, repeat=k):
+                clear_ignore_parser_cache()
+                for arg, cwd in seq:
+                    os.chdir(roots[cwd])
+                    p = get_ignore_parser(pathlib.Path(roots[arg]) if arg else None)
+                    exp = arg or cwd
+                    cases += 1
+                    if os.path.realpath(str(p.project_root)) != roots[exp] or list(p.repo_patterns) != want[exp]:
+                        w = {"sequence": [f"get_ignore_parser({'root ' + a if a else 'None'}) in cwd {c}" for a, c in seq],
+                             "returned_root": os.path.basename(os.path.realpath(str(p.project_root))), "expected_root": exp,
+                             "returned_patterns": list(p.repo_patterns)}
+                        return [dict(name=name, kind="bounded", verdict="refuted", carries=True, tool="native call sequences", cases=cases,
+                                     budget="all sequences of length <= 3 over 4 actions", witness_confirmed=True, witness=w,
+                                     note=f"the parser handed out belongs to another project: {w}"[:900])]
+    except BaseException as e:  # noqa
+        return [dict(name=name, kind="bounded", verdict="unknown", carries=True, tool="native call sequences", cases=cases,
+                     note=f"harness error {e!r}"[:300])]
+    finally:
+        os.chdir(cwd0)
+        shutil.rmtree(base, ignore_errors=True)
+        try:
+            from src.linter_config.ignore import clear_ignore_parser_cache as _c
+            _c()
+        except BaseException:  # noqa
+            pass
+    return [dict(name=name, kind="bounded", verdict="passed", carries=True, tool="native call sequences", cases=cases,
+                 budget="all sequences of length <= 3 over {get(A), get(B), get(None)@A, get(None)@B}",
+                 note=f"{cases} calls: the returned parser always belongs to the requested root (or the working directory)")]
